@@ -87,7 +87,7 @@ pub fn random_poll_histories(cfg: &Cfg, rep: &mut Report, total: u64, stream: u6
         let mut with_report = 0u64;
         while done < per {
             let len = rng.range(5, 200);
-            let timeout = *rng.pick(&[0u64, 1, T2, T2, 5 * TICK, T_INF, 10_000_000, 900_000_000, ONE_S, 1_500_000_000, ONE_H]);
+            let timeout = *rng.pick(&[0u64, 1, T2, T2, 5 * TICK, T_INF, 10_000_000, 900_000_000, ONE_S, 1_500_000_000, ONE_H, T_YEAR, (1u64 << 53) + 1]);
             let t = if timeout == T_INF { 7 * TICK } else { timeout };
             let mut ticks: Vec<u64> = if timing_focus {
                 vec![t.saturating_sub(1), t, t + 1, 1, t / 2, t.saturating_sub(1), t]
@@ -102,7 +102,11 @@ pub fn random_poll_histories(cfg: &Cfg, rep: &mut Report, total: u64, stream: u6
             }
             let nvalues = *rng.pick(&[2u8, 3, 4, 128, 200, 200]);
             let chans = *rng.pick(&[1u8, 1, 2, 3, 16]);
-            let mut mon = PollMon::new(timeout);
+            let mut mon = if timeout == T_INF && rng.chance(1, 2) {
+                PollMon::new_huge(*rng.pick(&huge_durations()))
+            } else {
+                PollMon::new(timeout)
+            };
             mon.now = *rng.pick(&[0u64, 17, 1 << 40]);
             mon.p5 = rng.chance(1, 2);
             let mut hist: Vec<Ev> = Vec::with_capacity(len as usize + 1);
@@ -256,6 +260,9 @@ pub fn run_templates(base: &PollMon, c: u8, prefix: &[String], rep: &mut Report)
         rep.count("templates_late", 1);
         // the same late poll after clock steps just past 2^32 ns, 1 s, 2^32 us, 1 h
         for hstep in hostile_ticks(t / 2) {
+            if hstep < t {
+                continue; // with a very long timeout this step is not past the deadline
+            }
             run(
                 &[
                     (sel[0], None, ""),
@@ -425,6 +432,28 @@ pub fn run_c13(cfg: &Cfg, rep: &mut Report) {
             rep.count("dictionary_explorer_runs", 1);
             if !st.fixpoint {
                 rep.inconclusive("C13 dictionary explorer did not reach a fixpoint");
+            }
+        }
+    }
+    if !cfg.as_c18 {
+        // very long timeouts: one year (beyond exact f64 seconds; tick = half a year) and
+        // durations of 2^64 ns and more (must behave as "never")
+        let c = crate::util::rotating_channel(cfg, 9);
+        let mut setups: Vec<(PollMon, u64)> = vec![(PollMon::new(T_YEAR), T_YEAR / 2)];
+        for d in huge_durations().iter().take(if cfg.thorough { 5 } else { 2 }) {
+            setups.push((PollMon::new_huge(*d), TICK));
+        }
+        for (mon, tick) in setups {
+            let alpha = pn_alphabet(&[c], &[0, 1], true, Some(tick));
+            let init = PollTemplates { mon, chan: c };
+            let (st, _) = explore(cfg, init, &alpha, 80_000, rep, false);
+            rep.states += st.states;
+            rep.transitions += st.transitions;
+            rep.evaluations += st.transitions;
+            rep.distinct_nontrivial += st.states;
+            rep.count("long_timeout_explorer_runs", 1);
+            if !st.fixpoint {
+                rep.inconclusive("C13 long-timeout explorer did not reach a fixpoint");
             }
         }
     }
